@@ -99,7 +99,9 @@ def _ensure_gen(ctx):
 
 
 def generated_obligations(ctx):
-    return _ensure_gen(ctx)
+    res = _ensure_gen(ctx)
+    ctx.notes["translator"] = res.get("info")
+    return res
 
 
 # ------------------------------------------------------------------ independent reference (RFCs)
@@ -618,6 +620,25 @@ def gen_keyid(ctx, rng):
         yield "keyid", bad
 
 
+def gen_candidates(ctx, rng):
+    """RFC 4035 5.3.1: which DNSKEYs may have made an RRSIG (algorithm, key tag, Zone flag, protocol 3)"""
+    for _ in range(ctx.n(60, 1500)):
+        base = rb(rng, 4, 40)
+        keys = []
+        for _k in range(rng.randint(1, 5)):
+            flags = rng.choice([256, 257, 0, 1, 384, 0x8100, rng.randrange(65536)])
+            proto = rng.choice([3, 3, 3, 0, 2, 255])
+            alg = rng.choice([8, 8, 13, 1, 5])
+            key = base if rng.random() < 0.6 else rb(rng, 4, 40)
+            keys.append([flags, proto, alg, key])
+        pick = rng.choice(keys)
+        tag = ref_keytag(struct.pack("!HBB", pick[0], pick[1], pick[2]) + pick[3], pick[2])
+        if rng.random() < 0.15:
+            tag = (tag + 1) % 65536
+        alg = pick[2] if rng.random() < 0.85 else rng.choice([8, 13, 1])
+        yield "candidates", [10, keys, alg, tag]
+
+
 def gen_rrsig(ctx, rng):
     for _ in range(ctx.n(500, 12000)):
         origin = g_origin(rng) if rng.random() < 0.6 else None
@@ -868,6 +889,7 @@ def cases(ctx):
     yield from gen_keyid(ctx, rng)
     yield from gen_digestable(ctx, rng)
     yield from gen_rrsig(ctx, rng)
+    yield from gen_candidates(ctx, rng)
     yield from gen_ds(ctx, rng)
     yield from gen_nsec3(ctx, rng)
     yield from gen_bitmap(ctx, rng)
@@ -876,7 +898,7 @@ def cases(ctx):
 
 
 def in_model(kind, case):
-    return case[0] != 9
+    return case[0] not in (9, 10)
 
 
 # ------------------------------------------------------------------ implementation runner
@@ -969,6 +991,7 @@ class FakeHashlib:
 def impl(case):
     import dns.dnssec
     import dns.name
+    import dns.node
     import dns.rdata
     import dns.rdataclass
     import dns.rdataset
@@ -1042,7 +1065,29 @@ def impl(case):
                 rds.add(k, 300)
                 dsset = dns.dnssec.make_ds_rdataset((N(owner), rds), {dt})
                 ok &= int(len(dsset) == 1 and dsset[0].digest == ds.digest and dsset[0].key_tag == ds.key_tag)
+                cdsset = dns.rdataset.Rdataset(1, 59)
+                cdsset.add(cds, 300)
+                back = dns.dnssec.make_ds_rdataset((N(owner), cdsset), {dt})
+                ok &= int(len(back) == 1 and back[0].rdtype == 43 and back[0].to_wire() == ds.to_wire())
             return [log[0], ds.key_tag, int(ds.algorithm), int(ds.digest_type), ok]
+        if op == 10:
+            _, keys, alg, tag = case
+            signer = N([b"example", b""])
+            rds = dns.rdataset.Rdataset(1, 48)
+            objs = []
+            for f, p_, a, k in keys:
+                o = dns.rdata.get_rdata_class(1, 48)(1, 48, f, p_, a, bytes(k))
+                rds.add(o, 300)
+                objs.append(o)
+            rrsig = dns.rdata.get_rdata_class(1, 46)(1, 46, 1, alg, 2, 300, 2, 1, tag, signer, b"")
+            got = dns.dnssec._find_candidate_keys({signer: rds}, rrsig)
+            node = dns.node.Node()
+            node.rdatasets.append(rds)
+            got2 = dns.dnssec._find_candidate_keys({signer: node}, rrsig)
+            if got is None or got2 is None or [g.to_wire() for g in got] != [g.to_wire() for g in got2]:
+                return Err(907, "candidate keys differ between rdataset and node form")
+            missing = dns.dnssec._find_candidate_keys({N([b"other", b""]): rds}, rrsig)
+            return [sorted(g.to_wire() for g in got), int(missing is None)]
         if op == 5:
             _, name, salt, it, alg, _tbl = case
             h = dns.dnssec.nsec3_hash(N(name), bytes(salt), it, alg)
@@ -1074,6 +1119,9 @@ def impl(case):
                 return Err(903, "compute_digest did not finish exactly one hash")
             real = {1: hashlib.sha384, 2: hashlib.sha512}[halg](log[0]).digest()
             ok = zmd.digest == real
+            # RFC 8976 2.2: serial = the SOA serial the digest was computed for; scheme / algorithm as requested
+            soa_serial = [a[2] for n_, rdss in nodes for ty, cov, _c, _t, rds in rdss if ty == 6 for _f, a in rds]
+            ok = ok and soa_serial == [zmd.serial] and int(zmd.scheme) == scheme and int(zmd.hash_algorithm) == halg and zmd.rdtype == 63
             try:
                 z.verify_digest(zmd)
             except Exception:
@@ -1212,6 +1260,18 @@ def oracle(ctx, kind, case, out):
                         fail("DS key tag / algorithm / digest type fields wrong", sig="ds-fields")
                     if out[4] != 1:
                         fail("DS digest is not the hash of the digest input", sig="ds-digest")
+    elif op == 10:
+        _, keys, alg, tag = case
+        exp = set()
+        for f, p_, a, k in keys:
+            rdata = struct.pack("!HBB", f, p_, a) + bytes(k)
+            if a == alg and ref_keytag(rdata, a) == tag and (f & 0x0100) and p_ == 3:
+                exp.add(rdata)
+        if err:
+            fail("candidate key selection raised", sig="cand-exc")
+        elif out != [sorted(exp), 1]:
+            fail("candidate DNSKEYs for an RRSIG are not exactly the ones with matching algorithm and key tag, Zone flag set and protocol 3",
+                 expected=[sorted(exp), 1], sig="candidates")
     elif op == 5:
         _, name, salt, it, alg, _t = case
         if alg == 1:
